@@ -24,14 +24,18 @@ CHECKS = {
 CHECKS["C16"] = dict(
     technique="TLA+ model (FileCache.tla, sequential configuration) checked by TLC against CacheAbs.tla for every "
               "operation sequence; each sequence executed through the Klong surface; results, byte totals and "
-              "accounting fields after every call validated by TLC (CacheTrace.tla)",
+              "accounting fields after every call validated by TLC (CacheTrace.tla); table store: TLC-generated histories "
+              "(TableStoreGen.tla) through the Klong surface of .tables, merge semantics and accounting judged by TLC "
+              "(TableStoreAbs.tla / TableStoreTrace.tla)",
     text="TLC enumerates every operation sequence up to the bound (set/get/missing key/reopen/unload/oversize, flat and "
          "nested keys) x cache limits on the implementation-shaped model and checks dictionary semantics and the accounting "
          "invariants; the same sequences run on the real KeyValueStorage with the real pickled sizes as model sizes: the "
          "model's predicted result and byte total after every call must match (drift) and the recorded history and "
          "snapshots are judged by TLC against the abstract dictionary + accounting spec.",
     note="Trusted: TLC, the projection of FileCache fields, pickle. Bounds: sequences <= 3 (thorough 4) ops, 4 keys, "
-         "3 sizes + one round trip per value kind, 3 limits. TableStorage's merge is not yet modelled.",
+         "3 sizes + one round trip per value kind, 3 limits. Table store: all histories of 3 operations and seeded histories of 7 "
+         "(set of 4 tables with overlapping / disjoint / contained index ranges on 3 keys, get incl. a never-set key, reopen, "
+         "unload) x 3 limits placed between pickled and in-memory sizes.",
     design_ref="DESIGN.md section 5 C16")
 CHECKS["C18"] = dict(
     technique="TLA+ model (FileCache.tla) of clients + worker tasks checked exhaustively by TLC against CacheAbs.tla "
